@@ -93,25 +93,48 @@ Definition shutil_copy (source dest : path) (f : fs) : result :=
   | _ => Raised f                                           (* IsADirectoryError *)
   end.
 
-(* copypath, with the filesystem it leaves behind also when it raises *)
+(* if len(path_parts) > 1: root = path_parts[0]; path_parts = path_parts[1:-1];
+   <ensure_dir root>; <loop>          -- a dest of at most one part has no ancestors to make *)
+Definition make_ancestors (dest : path) (f : fs) : result :=
+  match dest with                                           (* path_parts = Path(dest).parts *)
+  | root_part :: ((_ :: _) as tl) =>                        (* if len(path_parts) > 1: *)
+      let root := [root_part] in                            (*   root = path_parts[0] *)
+      let middle := removelast tl in                        (*   path_parts = path_parts[1:-1] *)
+      match ensure_dir root f with                          (*   if not exists(root): mkdir(root) *)
+      | Raised f1 => Raised f1
+      | Ok f1 => mkdir_loop root middle f1                  (*   for part in path_parts: ... *)
+      end
+  | _ => Ok f
+  end.
+
+(* copypath (as of the repair b5b5a4c: shutil.copy is OUTSIDE the `if len(path_parts) > 1`),
+   with the filesystem it leaves behind also when it raises.
+   The empty tuple stands for "." (Path(".").parts = ()); the empty STRING, which is not a
+   path and for which shutil.copy raises, is outside the model. *)
 Definition copypath_run (dsize : nat) (source dest : path) (f : fs) : result :=
   if negb (exists_b f source)
      || (exists_b f dest && (getsize dsize f source <=? getsize dsize f dest))
   then Ok f                                                 (* return *)
   else
-    match dest with                                         (* path_parts = Path(dest).parts *)
-    | root_part :: ((_ :: _) as tl) =>                      (* if len(path_parts) > 1: *)
-        let root := [root_part] in                          (*   root = path_parts[0] *)
-        let middle := removelast tl in                      (*   path_parts = path_parts[1:-1] *)
-        match ensure_dir root f with                        (*   if not exists(root): mkdir(root) *)
-        | Raised f1 => Raised f1
-        | Ok f1 =>
-            match mkdir_loop root middle f1 with            (*   for part in path_parts: ... *)
-            | Raised f2 => Raised f2
-            | Ok f2 => shutil_copy source dest f2           (*   shutil.copy(source, dest) *)
-            end
+    match make_ancestors dest f with
+    | Raised f2 => Raised f2
+    | Ok f2 => shutil_copy source dest f2                   (* shutil.copy(source, dest) *)
+    end.
+
+(* the code BEFORE the repair: shutil.copy was inside the `if`, so a dest of one part was
+   never written.  Kept only for the refutation in Proofs/CopyPathProofs.v. *)
+Definition copypath_run_old (dsize : nat) (source dest : path) (f : fs) : result :=
+  if negb (exists_b f source)
+     || (exists_b f dest && (getsize dsize f source <=? getsize dsize f dest))
+  then Ok f
+  else
+    match dest with
+    | _ :: _ :: _ =>
+        match make_ancestors dest f with
+        | Raised f2 => Raised f2
+        | Ok f2 => shutil_copy source dest f2
         end
-    | _ => Ok f                                             (* a dest of one part: NOTHING is done *)
+    | _ => Ok f
     end.
 
 Definition copypath (dsize : nat) (source dest : path) (f : fs) : fs :=
